@@ -455,7 +455,9 @@ def r7_column_writes_keep_rows(ctx):
             if not isinstance(st, ast.Assign):
                 continue
             t = st.targets[0]
-            if not (isinstance(t, ast.Subscript) and isinstance(t.value, ast.Name) and t.value.id.startswith("df")):
+            # a column store `<table>[<column label>] = ...` (label: a string literal or one of the reader's `*_name` attributes)
+            if not (isinstance(t, ast.Subscript) and isinstance(t.value, ast.Name) and t.value.id not in ("self", "cls")
+                    and ((isinstance(t.slice, ast.Constant) and isinstance(t.slice.value, str)) or U(t.slice).endswith("_name") or isinstance(t.slice, ast.Name))):
                 continue
             n += 1
             v = inl.resolve(st.value)
